@@ -6,6 +6,12 @@ THOROUGH_MODULES = ["RkVerif.Model.C11", "RkVerif.Lemmas.C11"]
 
 MODES = {"u8": (1, 1), "u32": (4, 4), "r24": (24, 8), "tc": (8, 4)}   # element size, alignment ("tc": copies can be made to throw)
 HARNESSES = [dict(name="c11", src="harness/c11.cpp", repo_srcs=[], args=[m], mode=m) for m in MODES]
+# packed DataView layouts (records such as {u8, u32} with stride 5: the element is not aligned for its type). The
+# library forms a misaligned reference there, which x86-64 executes and UBSan's alignment check would flag in the
+# unchanged code; this build leaves that one check out so that "DataView[i] reads exactly the element at byte offset
+# i*stride" is exercised for such layouts too (addresses and bytes are compared, the value is read with memcpy).
+HARNESSES.append(dict(name="c11pk", src="harness/c11.cpp", repo_srcs=[], args=["u32"], mode="u32pk",
+                      flags=["-fno-sanitize=alignment"]))
 
 NW, NB, ND = 6, 4, 3
 
@@ -113,7 +119,15 @@ def _wrapper_case(rng, mode):
                     c.append("destroy %d" % j); wk[j], wn[j] = None, 0
                 elif kill == "assign" and wk[j] in ("oa", "fa"):
                     s, n = src()
-                    c.append("%s_assign %d %s %s" % (wk[j], j, s, via())); wn[j] = n
+                    if wk[j] == "oa" and rng.chance(0.3) and wn[j] > 0:
+                        # keep a sub-range of the array itself / an assignment during which element copies throw
+                        off = rng.randrange(wn[j]); n = rng.randrange(wn[j] - off + 1)
+                        s = "w%d:%d:%d" % (j, off, n)
+                        c.append("oa_assign %d %s ptr" % (j, s)); wn[j] = n
+                    elif wk[j] == "oa" and rng.chance(0.3):
+                        c.append("oa_reset_throw %d %s" % (j, s)); wn[j] = n
+                    else:
+                        c.append("%s_assign %d %s %s" % (wk[j], j, s, via())); wn[j] = n
                 elif kill == "resize" and wk[j] == "oa":
                     n = rng.pick([0, 1, 9, 12])
                     c.append("oa_resize %d %d %d" % (j, n, rng.randrange(256))); wn[j] = n
@@ -163,7 +177,11 @@ def _wrapper_case(rng, mode):
             opn = {"av": "av_set", "oa": "oa_assign", "fa": "fa_assign"}[k]
             if k == "fa" and rng.chance(0.25):
                 # the assignment's element-block / control-block allocation fails: the array must stay what it was
-                c.append("fa_assign_fail%d %d %s vec" % (rng.pick([1, 2]), j, s))
+                # (element type with a destructor: only the element block's failure. When the control block's allocation
+                # fails inside `std::shared_ptr<T>(new T[n], deleter)`, g++ 12 runs the elements' destructors a second time
+                # after the deleter has freed them - reproduced in a ten-line program without rkcommon, not with clang++ 14;
+                # a toolchain matter, see DESIGN 0.5)
+                c.append("fa_assign_fail%d %d %s vec" % (1 if mode == "tc" else rng.pick([1, 2]), j, s))
                 obs(j)
                 continue
             c.append("%s %d %s %s" % (opn, j, s, via()))
@@ -225,8 +243,10 @@ def _wrapper_case(rng, mode):
     return c
 
 
-def _dv_case(rng, mode):
+def _dv_case(rng, mode, packed=False):
     ts, al = MODES[mode]
+    if packed:
+        al = 1          # bases and strides that are not multiples of the element's alignment
     c = []
     for b in range(2):
         n = rng.pick([0, ts, 2 * ts + al, 4 * ts, 5 * ts + 3])
@@ -236,7 +256,7 @@ def _dv_case(rng, mode):
         d = rng.randrange(ND)
         r = rng.random()
         if r < 0.30:
-            stride = rng.pick([0, ts, ts, 2 * ts, ts + al, 3 * ts])
+            stride = rng.pick([0, ts, ts, 2 * ts, ts + al, 3 * ts] + ([ts + 1, ts + 1, 2 * ts + 3, 7] if packed else []))
             base = al * rng.randrange(0, 2 * ts // al + 2)
             dflt = " d" if stride == ts and rng.chance(0.5) else ""
             c.append("%s %d %d %d %d%s" % (rng.pick(["dv_new", "dv_new", "dv_reset"]), d, rng.randrange(2), base, stride, dflt))
@@ -284,6 +304,8 @@ def _reassign_case(rng):
 def gen_cases(rng, tier, h):
     mode = h["mode"]
     n = 350 if tier == "quick" else 12000
+    if mode.endswith("pk"):
+        return [_dv_case(rng, mode[:-2], packed=True) for _ in range(n // 2)]
     cases = []
     for k in range(n):
         cases.append(_wrapper_case(rng, mode))
@@ -295,7 +317,7 @@ def gen_cases(rng, tier, h):
 
 
 _MUT = ("fa_assign_fail1", "fa_assign_fail2", "av_new", "oa_new", "fa_new", "fa_size", "fav_new", "av_set", "oa_assign", "fa_assign", "oa_reset", "av_reset",
-        "oa_resize", "oa_resize_self", "oa_resize_throw", "copy", "assign", "destroy", "wset", "buf_set", "buf_free", "buf_new", "dv_new", "dv_reset", "dv_copy", "bb_free")
+        "oa_resize", "oa_resize_self", "oa_resize_throw", "oa_reset_throw", "copy", "assign", "destroy", "wset", "buf_set", "buf_free", "buf_new", "dv_new", "dv_reset", "dv_copy", "bb_free")
 
 
 def nontrivial(case):
